@@ -109,6 +109,23 @@ func (e *dataErr) FromJSONRPCError(j jsonrpc.JSONRPCError) error {
 	return nil
 }
 
+// a codec error whose wire message is empty while its Error() text is not
+type emptyMsgErr struct {
+	M string // what arrived in the wire message (the sender leaves it empty)
+	T string // the sender's own text, only in Error()
+	D string
+}
+
+func (e *emptyMsgErr) Error() string { return "emc: " + e.T }
+func (e *emptyMsgErr) ToJSONRPCError() (jsonrpc.JSONRPCError, error) {
+	return jsonrpc.JSONRPCError{Code: 47, Message: "", Data: e.D}, nil
+}
+func (e *emptyMsgErr) FromJSONRPCError(j jsonrpc.JSONRPCError) error {
+	d, _ := j.Data.(string)
+	e.M, e.D = j.Message, d
+	return nil
+}
+
 type valReg struct{ M string } // registered as a value type; handlers may return the value or a pointer
 
 func (e valReg) Error() string { return e.M }
@@ -145,6 +162,8 @@ func mkErr(kind int, msg string, n int) error {
 		return fmt.Errorf("ctx: %w", &codecErr{C: 41, M: msg})
 	case 13:
 		return &dataErr{M: msg, D: fmt.Sprintf("payload-%d", n)}
+	case 14:
+		return &emptyMsgErr{T: msg, D: fmt.Sprintf("d-%d", n)}
 	}
 	return nil
 }
@@ -182,6 +201,8 @@ func regType(kind int) interface{} {
 		return new(valReg)
 	case 13:
 		return new(*dataErr)
+	case 14:
+		return new(*emptyMsgErr)
 	}
 	return nil
 }
@@ -214,10 +235,10 @@ type errCase struct {
 }
 
 func errorsFamily(seed uint64, tier string, args []string) {
-	same := [][2]int{{11, 1}, {12, 2}, {13, 3}, {14, 4}, {15, 5}, {16, 6}, {17, 7}, {20, 10}, {46, 13}}
+	same := [][2]int{{11, 1}, {12, 2}, {13, 3}, {14, 4}, {15, 5}, {16, 6}, {17, 7}, {20, 10}, {46, 13}, {47, 14}}
 	disjoint := [][2]int{{21, 1}, {22, 2}, {23, 3}, {24, 4}, {25, 5}, {26, 6}, {27, 7}, {30, 10}}
 	swapped := [][2]int{{11, 2}, {12, 1}, {13, 4}, {14, 3}, {15, 5}, {16, 6}, {17, 7}, {20, 10}, {40, 3}, {41, 4}, {42, 1}, {44, 3}, {45, 5}}
-	codecCodes := [][2]int{{40, 4}, {41, 4}, {42, 4}, {44, 7}, {45, 5}, {13, 3}, {11, 1}, {46, 13}}
+	codecCodes := [][2]int{{40, 4}, {41, 4}, {42, 4}, {44, 7}, {45, 5}, {13, 3}, {11, 1}, {46, 13}, {47, 14}}
 	relations := []struct {
 		name string
 		s, c [][2]int
@@ -249,7 +270,7 @@ func errorsFamily(seed uint64, tier string, args []string) {
 			if err != nil {
 				panic(err)
 			}
-			for kind := 0; kind <= 13; kind++ {
+			for kind := 0; kind <= 14; kind++ {
 				for mi, msg := range msgs {
 					if tier == "quick" && (kind+mi+ri)%3 != 0 && mi > 1 {
 						continue
@@ -276,6 +297,9 @@ func errorsFamily(seed uint64, tier string, args []string) {
 								c.Fields = string(b)
 							case *dataErr:
 								b, _ := json.Marshal(map[string]interface{}{"code": 46, "message": v.M, "data": v.D})
+								c.Fields = string(b)
+							case *emptyMsgErr:
+								b, _ := json.Marshal(map[string]interface{}{"code": 47, "message": v.M, "data": v.D})
 								c.Fields = string(b)
 							case *bothErr:
 								b, _ := json.Marshal(map[string]interface{}{"code": v.C, "message": v.M, "data": v.Data, "X": v.X})
@@ -311,6 +335,8 @@ func errorsFamily(seed uint64, tier string, args []string) {
 							c.Oracle = fmt.Sprintf("a codec-style error supplying code %d itself arrived as the generic error without that code: %s", codecCode(kind, n), c.Fields)
 						case codecCode(kind, n) != 0 && e != nil && hasReg(rel.c, codecCode(kind, n), kind) && kind != 7 && c.Type == "*jsonrpc.JSONRPCError":
 							c.Oracle = fmt.Sprintf("a codec-style error supplying code %d itself, registered under that code by the client (server table: %v), arrived as the generic error: %s", codecCode(kind, n), rel.s, c.Fields)
+						case kind == 14 && e != nil && c.Type == "*main.emptyMsgErr" && !strings.Contains(c.Fields, `"message":""`):
+							c.Oracle = "a codec-style error whose own wire message is empty arrived with another message (the codec-provided fields must equal the original's): " + c.Fields
 						case kind == 8 && e != nil && (c.Type != "*jsonrpc.JSONRPCError" || e.Error() != msg):
 							c.Oracle = fmt.Sprintf("unregistered error did not arrive as the generic error with its message: %s %q", c.Type, e.Error())
 						case rel.name == "same" && kind == 3 && (c.Type != "*main.marshErr" || c.Fields != fmt.Sprintf(`{"M":%s,"N":%d}`, mustQ(msg), n)):
@@ -339,6 +365,8 @@ func codecCode(kind, n int) int {
 		return 44
 	case 13:
 		return 46
+	case 14:
+		return 47
 	}
 	return 0
 }
